@@ -325,6 +325,68 @@ pub fn run(p: &Params, rep: &mut Report) {
     rep.count("ranges_in_domain", rs.len() as u64);
     let mut rng = p.rng(15);
     check_large(rep, &mut rng, seed);
+    // grid over large bounds: every (a, b-a, c, d-c) from a list that straddles 2^15.5, 2^16, 2^31, 2^32
+    let vals: [u64; 9] = [0, 1, 2, 1000, 46341, 65535, 65536, 65537, 2_000_000_000];
+    let widths: [Option<u64>; 6] = [Some(0), Some(1), Some(50_000), Some(65_536), Some(2_147_483_648), None];
+    let mut gi = 0u64;
+    for &a in &vals {
+        for &wa in &widths {
+            for &c in &vals {
+                for &wc in &widths {
+                    gi += 1;
+                    if gi % p.nshards != p.shard {
+                        continue;
+                    }
+                    let mk = |lo: u64, w: Option<u64>| -> Option<Rg> {
+                        match w {
+                            None => Some(Rg(lo as u32, None)),
+                            Some(w) => {
+                                let hi = lo + w;
+                                if hi > u32::MAX as u64 {
+                                    None
+                                } else {
+                                    Some(Rg(lo as u32, Some(hi as u32)))
+                                }
+                            }
+                        }
+                    };
+                    if let (Some(r), Some(s)) = (mk(a, wa), mk(c, wc)) {
+                        rep.inc("large_grid_pairs");
+                        let case = format!("{} {}", r.txt(), s.txt());
+                        let (lr, ls) = (r.mk(), s.mk());
+                        // a panic (documented overflow) is acceptable; a returned value must be the true one
+                        if let (Ok(e), Some(w)) = (guard(|| lr.right_mul_is_exact(&ls)), exact_by_definition(r, s)) {
+                            if e != w {
+                                rep.violation("exact", &format!("exact-grid:{}", case), format!("{}.right_mul_is_exact({}) = {} but by enumeration of gaps it is {}", r.txt(), s.txt(), e, w), "ranges", &case, seed);
+                            }
+                        }
+                        if let Ok(x) = guard(|| lr.mul(&ls)) {
+                            let x = of(&x);
+                            let zero = r == Rg(0, Some(0)) || s == Rg(0, Some(0));
+                            let lo = if zero { 0 } else { r.0 as u64 * s.0 as u64 };
+                            let hi = if zero { Some(0) } else { match (r.1, s.1) { (Some(p1), Some(q1)) => Some(p1 as u64 * q1 as u64), _ => None } };
+                            if x.0 as u64 != lo || x.1.map(|v| v as u64) != hi {
+                                rep.violation("overflow", &format!("overflow:mul:{}", case), format!("{}.mul({}) = {} (wrong or silently wrapped)", r.txt(), s.txt(), x.txt()), "ranges", &case, seed);
+                            }
+                        }
+                        if let Ok(x) = guard(|| lr.add(&ls)) {
+                            let x = of(&x);
+                            let lo = r.0 as u64 + s.0 as u64;
+                            let hi = match (r.1, s.1) { (Some(p1), Some(q1)) => Some(p1 as u64 + q1 as u64), _ => None };
+                            if x.0 as u64 != lo || x.1.map(|v| v as u64) != hi {
+                                rep.violation("overflow", &format!("overflow:add:{}", case), format!("{}.add({}) = {} (wrong or silently wrapped)", r.txt(), s.txt(), x.txt()), "ranges", &case, seed);
+                            }
+                        }
+                        let inc = r.0 <= s.0 && match (r.1, s.1) { (None, _) => true, (Some(_), None) => false, (Some(x), Some(y)) => y <= x };
+                        if lr.includes(&ls) != inc {
+                            rep.violation("includes", &format!("includes:{}", case), format!("{}.includes({}) = {}", r.txt(), s.txt(), lr.includes(&ls)), "ranges", &case, seed);
+                        }
+                        rep.eval(Some(&format!("g{}", case)));
+                    }
+                }
+            }
+        }
+    }
     if p.thorough {
         // random mid-size ranges beyond the exhaustive box
         for _ in 0..3000 {
